@@ -13,7 +13,7 @@ RULE = 'as C01 with monitor installation/replacement mid-run, callbacks, Finaliz
 TRUSTED = SC.TRUSTED
 ASSUMPTIONS = SC.ASSUMPTIONS
 META = dict(technique='Coq proof (counter/monitor invariants for every algorithm and op sequence; DE history monotonicity) + trace correspondence by vm_compute',
-            level_text="Theorems: counter = number of real calls and evaluation monitor = latest real calls in order, after ANY op sequence, for every algorithm that leaves the counter to the cost wrapper (DE, Nelder-Mead); DE history non-increasing with last entry = reported best, one record per generation; Nelder-Mead: last step-monitor record = reported best in every clean run. DE2's recomputed counter is refuted by witness (known findings). Correspondence compares counters, histories, monitor contents and callback arguments after every op.",
+            level_text="Theorems: counter = number of real calls and evaluation monitor = latest real calls in order, after ANY op sequence, for every algorithm that leaves the counter to the cost wrapper (DE, Nelder-Mead); DE history non-increasing with last entry = reported best, one record per generation; Nelder-Mead: last step-monitor record = reported best in every clean run, and (C04_nm_history) the best-energy history is non-increasing with last entry = reported best after every clean op sequence incl. mid-run reconfiguration, for every simplex size; Powell: last energy-history entry = reported best. DE2's recomputed counter is refuted by witness (known findings). Correspondence compares counters, histories, monitor contents and callback arguments after every op.",
             level_note='Trusted: Coq kernel+VM; harness (generators, instrumentation of /repo from outside, printers, oracles). User cost/constraints/penalty, DE trial vectors, Nelder-Mead candidate points, argsort permutation and post-decoration populations are oracle inputs (recorded in the correspondence, universally quantified in theorems). Powell: line-search probes and the returned index are oracle inputs. Tight / clip=True range modes: the composite constraints.and_(constraints, bounds) is a recorded table. Not in the machine model (oracle only): ensembles, clip=False ranges. No NaN energies.',
             design_ref="5/C04")
 
